@@ -302,6 +302,19 @@ def roundtrip(obj, version, key, feat, part, case, options):
         if not (d0 == d1 == d2) or d3 != d4:
             part.violation("C01/defaults-differ/%s" % feat, "serialize() with its options left at their defaults is not the compact form without defaulted optionals (or str() differs from it)",
                            dict(case, options="defaults"), d1[:200], (d0 if d0 != d1 else d2 if d2 != d1 else d3)[:200])
+        # the text handed back in the other forms a document arrives in (bytes in another encoding JSON allows, a bytearray, byte / text streams): the same object
+        import io
+        for fname, mk in (("bytes/utf-16", lambda t: t.encode("utf-16")), ("bytearray/utf-8", lambda t: bytearray(t.encode("utf-8"))), ("bytes/utf-8-with-BOM", lambda t: t.encode("utf-8-sig")),
+                          ("BytesIO/utf-32", lambda t: io.BytesIO(t.encode("utf-32"))), ("StringIO", lambda t: io.StringIO(t))):
+            part.transitions += 1
+            try:
+                b2 = stix2.parse(mk(d0), allow_custom=obj.has_custom)
+                same = type(b2) is type(obj) and b2 == obj and b2.serialize() == d0
+                why = "another object"
+            except Exception as e:
+                same, why = False, "%s: %s" % (type(e).__name__, str(e)[:120])
+            if not same:
+                part.violation("C01/document-form/%s" % fname.split("/")[0], "the serialization handed back as bytes / a stream does not parse to the same object", dict(case, options="defaults", form=fname), "the same object", why)
     except Exception:
         pass        # serialization failures are reported per option set below
     for o in options:
